@@ -213,7 +213,7 @@ Proof.
     apply (merge_go_fn (concat ls) [] [] syms (tname t) KInv_nil ltac:(intros v []) A). right.
     apply (program_by_equation_has_fn p ls (SEq lt rt e c) t Ep Ist It Tt). }
   split; [exact M|]. split; [exact O|].
-  intros o c C I. destruct (class_of_inv _ _ _ C) as (E1 & E2 & E3 & E4 & _).
+  intros o cl C I. destruct (class_of_inv _ _ _ C) as (E1 & E2 & E3 & E4 & _).
   unfold c_names in I. rewrite E1, E2, E3, E4 in I.
   assert (N : forall ty, ty <> TFunction -> ~ In (Some (tname t)) (names_of ty syms)).
   { intros ty Nty J. unfold names_of in J. apply in_map_iff in J as (v & Hv & Iv). apply filter_In in Iv as [Iv Hty].
@@ -226,3 +226,34 @@ Example guard_examples :
   fn_guard [SEq [mkTerm "Y" TVariable (Some (IInt 0))] [mkTerm "exp" TVariable (Some (IInt 0)); mkTerm "exp" TFunction None] "e" "c"] = false /\
   fn_guard [SEq [mkTerm "Y" TVariable (Some (IInt 0))] [mkTerm "exp" TFunction None; mkTerm "X" TVariable (Some (IInt 0))] "e" "c"] = true.
 Proof. split; reflexivity. Qed.
+
+(* ---------- exactness, and the guard as a decidable predicate on script text ---------- *)
+Require Import PyStr ParseModel ClassifyScript.
+
+Definition classified (p : list stmt) (x : string) : bool :=
+  is_endogenous p x || is_exogenous p x || is_parameter p x || is_error p x.
+
+Theorem guard_exact p syms o c : wf_program p = true -> program_symbols p = Ret syms -> class_of syms o = Ret c ->
+  (fn_guard p = true -> forall x, In x (script_names p) -> classified p x = true -> In (Some x) (c_names c)) /\
+  (fn_guard p = false -> exists x, existsb (nonfn_named x) (mentions p) = true /\ ~ In (Some x) (c_names c)).
+Proof.
+  intros W A C. split.
+  - intros G x Ix Cx. apply (names_partition p W G syms o c A C). split; assumption.
+  - intros G. destruct (guard_necessary p syms A G) as (x & M & _ & N). exists x. split; [exact M|apply (N o c C)].
+Qed.
+
+(* Some true / Some false for every script whose statements lex; None when a statement is rejected before *)
+Definition script_guard (model : string) : option bool :=
+  match script_program model with POk p => Some (fn_guard p) | _ => None end.
+
+Example script_guard_examples :
+  script_guard "Y = exp + exp(X)" = Some false /\ script_guard "Y = exp(X) + Z" = Some true /\
+  script_guard ("Y = a + a(1)" ++ nl_s ++ "Z = {a} + a(1)") = Some false /\ script_guard "Y = X +" = Some true /\
+  script_guard "Y = {a}[x]" = None.
+Proof. repeat split; vm_compute; reflexivity. Qed.
+
+(* for every accepted script the guard is defined (its statements lexed) *)
+Theorem script_guard_defined chk cs model syms : parse_model_M chk cs model = POk syms -> exists b, script_guard model = Some b.
+Proof.
+  intros H. destruct (accepted_script_program chk cs model syms H) as (p & V & _). unfold script_guard. rewrite V. eauto.
+Qed.
